@@ -1908,7 +1908,7 @@ class Gen:
         if what == "visit":
             op["rules"] = {c: "keep" for c in r.sample(["Expr", "LeafA", "Seq", "Pair", "LeafB", "Falsy", "LeafA2"], 3)}
             op["strict"] = r.random() < 0.5
-            op["vshape"] = r.choice(["flat", "flat", "base", "split", "validate", "mixin", "second_base", "late"])
+            op["vshape"] = r.choice(["flat", "flat", "base", "split", "validate", "mixin", "second_base", "late", "late_strict"])
         return op
 
     def g_poke(self, actor: str) -> dict[str, Any] | None:
@@ -1969,7 +1969,7 @@ class Gen:
         o = self.w.node_at(ref)
         if len(walk(o)) > 25:
             return None
-        op: dict[str, Any] = {"op": "transform", "n": ref, "rules": self.gen_rules(o), "strict": r.random() < 0.4, "vshape": r.choice(["flat", "flat", "base", "split", "validate", "mixin", "second_base", "late"]), "out": self.out()}
+        op: dict[str, Any] = {"op": "transform", "n": ref, "rules": self.gen_rules(o), "strict": r.random() < 0.4, "vshape": r.choice(["flat", "flat", "base", "split", "validate", "mixin", "second_base", "late", "late_strict"]), "out": self.out()}
         if self.cfg["faults"]:
             op["enum"] = True
         if self.cfg["faults"] and r.random() < 0.08:
@@ -2443,6 +2443,12 @@ def _shape(V0: Any, name: str, ns: dict[str, Any], shape: str) -> Any:
         V = type(name, (V0,), {k: v for k, v in ns.items() if k not in meths})
         for k in meths:
             setattr(V, k, ns[k])
+        return V
+    if shape == "late_strict":
+        # the class is created with the inherited default and made strict / non-strict afterwards (a type-level
+        # setting all the same: the library has to read it when it dispatches, not when the class is created)
+        V = type(name, (V0,), {k: v for k, v in ns.items() if k != "strict"})
+        V.strict = ns["strict"]
         return V
     if shape == "validate":
         for k in meths:
